@@ -1,6 +1,7 @@
 """Unit lists per property (BDD-core properties C02 C03 C04 C05 C07 C20) and the generic main."""
 import sys
 from runner import *   # noqa
+import bddcore
 
 S_BASE = ('and', 'or', 'not', 'implies')
 S_CONN = S_BASE + ('ite', 'eq', 'xor', 'nor', 'nand', 'mk_const', 'var')
@@ -152,6 +153,16 @@ def main(pid, extra_units=None, extra_bounds=None, extra_uncovered=None, post=No
     if extra_units:
         us += extra_units(quick)
     xj = []
+    if pid == 'C02':
+        xj.append(('<BDD as PartialEq>::eq on canonical diagrams k=3', bddcore.unit_bdd_eq, (3 if quick else 4, {})))
+        xj.append(('<BDD as Hash>::hash on canonical diagrams k=3', bddcore.unit_bdd_hash, (3, {})))
+    if pid == 'C05':
+        # the formula-language clause: `[..] op n` and `[..] op [..]` through the real evaluator, n an unconstrained usize
+        import evalcore
+        for sh in [('cc', tuple(['L'] * n)) for n in range(0, 4)] + [('cv', tuple(['L'] * a), tuple(['L'] * b)) for a in range(0, 3) for b in range(0, 3)] + [('not', ('cc', ('L', 'L')))]:
+            xj.append(('eval %r k=3' % (sh,), evalcore.unit_sketch, (sh, 3, {})))
+            if sh[0] == 'cc':
+                xj.append(('eval %r k=3 release profile (overflow wraps)' % (sh,), evalcore.unit_sketch, (sh, 3, dict(config=dict(overflow_checks=False)))))
     if pid == 'C20':
         # the same diagram retained twice in one environment with two independent filters (state threaded through)
         xj.append(('history retain ; retain k=2', unit_pair, ('retain', 'retain', 2, {})))
